@@ -61,6 +61,7 @@ def array_support(func):
 #%%
 @array_support
 def twos_complement_repr(val, nbits):
+    val = int(val)      # (python integer: 1 << nbits does not fit in a 64 bits numpy integer for words of 63 bits or more)
     if val < 0:
         val = (1 << nbits) + val
     else:
@@ -403,7 +404,7 @@ def min_pow2(x, n_frac=0):
 def binary_invert(x, n_word=None):
     if n_word is None:
         n_word = bits_len(x)
-    return int((1 << n_word) - 1 - x)
+    return ((1 << n_word) - 1 - int(x)) % (1 << n_word)     # (python integers; the pattern is kept inside the word also for a negative code)
 
 @array_support
 def binary_and(x, y, n_word=None):
